@@ -135,7 +135,8 @@ func RunConnCase(cc *ConnCase) *CaseResult {
 	}
 	res.FaultsApplied, res.LastFault = w.Router.FaultsApplied()
 	w.Close()
-	time.Sleep(3 * time.Second) // virtual: closing periods, timers
+	// virtual: closing periods (3 PTO, with retransmission time-outs inflated by losses) and timers
+	time.Sleep(3*time.Second + 60*opt.RTT)
 	if w.Wire != nil {
 		res.Taps = w.Wire.Snapshot()
 	}
@@ -346,4 +347,3 @@ func RunDialSeriesOverlap(opt Options, n int, ts TransferSpec, idle time.Duratio
 	}
 	return res
 }
-
